@@ -262,6 +262,11 @@ pub fn scenario(seed: u64, pool: &[Enr], rep: &mut Report) {
 
 pub fn run(p: &Params) -> Report {
     let mut rep = Report::new("C14");
+    if let Some(r) = &p.replay {
+        if super::sys::replay(r, &mut rep) {
+            return rep;
+        }
+    }
     let mut prng = Rng::new(p.shard_seed(14));
     let pool = enr_pool(&mut prng, 112);
     if let Some(r) = &p.replay {
@@ -274,5 +279,7 @@ pub fn run(p: &Params) -> Report {
         let seed = p.shard_seed(0x14_0000 + i);
         crate::util::guarded(&mut rep, seed, |rep| scenario(seed, &pool, rep));
     }
+    // full stack: an unmodified Discv5 inside a simulated network, judged on the wire and the API
+    super::sys::run_mixed(p, super::sys::Focus::C14, 0x5C14_0000, 1600, 100000, &mut rep);
     rep
 }
